@@ -393,3 +393,51 @@ Definition check_case_views (k : cfg * list exit_ev * (list obs * option final) 
   check_case (c, h, of) &&
   (is_rep c || list_eqb view_obs_eqb vs (views c init_st h)) &&
   view_obs_eqb fresh (observe fresh_view).
+
+(* ================================================================================================
+   Additions (round 4): where an exit reason comes from.  Engine.run() (engine.py:431) launches the
+   task asynchronously: LaunchTask calls the back-end's task generator; if that raises, no process
+   exists and the engine itself names the reason (OSError / JobLaunchError -> SubmissionFailed, any
+   other exception -> UnknownIssue); otherwise Wait/HandleTaskExit record the reason the task
+   reports (Engine._setExitReason: process.exitReason wins).  A failed launch leaves process,
+   _taskLaunched and _taskFinished unset.  The re-submission counter is touched by neither path
+   except for the Success reset in _setExitReason ([on_exit]).
+   ================================================================================================ *)
+Inductive launch :=
+  | TaskExits (r : reason)      (* the generator returned a task, which later exited with r *)
+  | GenOSError | GenLaunchError (* the generator raised OSError / JobLaunchError *)
+  | GenOtherError.              (* the generator raised something else *)
+
+Definition launch_reason (l : launch) : reason :=
+  match l with TaskExits r => r | GenOSError | GenLaunchError => SubmissionFailed | GenOtherError => UnknownIssue end.
+Definition launched (l : launch) : bool := match l with TaskExits _ => true | _ => false end.
+
+Record l_ev := { lv_launch : launch; lv_hook : hookout; lv_stable : bool; lv_run_ok : bool }.
+Definition to_exit_ev (e : l_ev) : exit_ev :=
+  {| ev_reason := launch_reason (lv_launch e); ev_hook := lv_hook e; ev_stable := lv_stable e; ev_run_ok := lv_run_ok e |}.
+
+Definition failed_launch_view (r : reason) : engine_view :=
+  {| v_exit := Some r; v_process := false; v_launched := false; v_finished := false |}.
+Definition exited_view_l (l : launch) : engine_view :=
+  if launched l then exited_view (launch_reason l) else failed_launch_view (launch_reason l).
+
+Definition view_after_l (c : cfg) (s : st) (e : l_ev) : engine_view :=
+  let r := launch_reason (lv_launch e) in
+  if reaches_run c (on_exit s r) r (lv_hook e) (lv_stable e)
+  then restart_reset (exited_view_l (lv_launch e)) else exited_view_l (lv_launch e).
+
+Fixpoint views_l (c : cfg) (s : st) (h : list l_ev) : list view_obs :=
+  match h with
+  | [] => []
+  | e :: h' =>
+      let '(s1, cd) := pm_step c s (to_exit_ev e) in
+      observe (view_after_l c s e) :: (if code_eqb cd Initiated then views_l c s1 h' else [])
+  end.
+
+(* the correspondence on launch histories: codes, counters and final state are those of the exit
+   history the launches produce; the engine views tell launched tasks from failed launches *)
+Definition check_case_launch (k : cfg * list l_ev * (list obs * option final) * (list view_obs * view_obs)) : bool :=
+  let '(c, h, of, (vs, fresh)) := k in
+  check_case (c, map to_exit_ev h, of) &&
+  (is_rep c || list_eqb view_obs_eqb vs (views_l c init_st h)) &&
+  view_obs_eqb fresh (observe fresh_view).
